@@ -611,6 +611,20 @@ def gen_case_c15(seed, tier):
             "only_points": None}
 
 
+def _anon_ops(ops):
+    """Op list with path names replaced by first-appearance tokens (names of
+    temporary files may embed pid / thread ident: keep them out of digests)."""
+    names = {}
+    out = []
+    for (kind, rel, nbytes) in ops:
+        tok = None
+        if rel is not None:
+            parts = rel.split(os.sep)
+            tok = "/".join("n%d" % names.setdefault(tuple(parts[: i + 1]), len(names)) for i in range(len(parts)))
+        out.append((kind, tok, nbytes))
+    return out
+
+
 def _fidelity_view(snap):
     """Directory contents up to the names of temporary files (which may embed
     the pid): the set of directories and the multiset of (parent, bytes)."""
@@ -716,7 +730,7 @@ def run_case_c15(case):
                 raise RuntimeError("recording run of the writer failed")
             ops = list(fs0.ops)
             # names of temporary files may embed pid / thread ident: keep them out of the digest
-            log.add("ops", [(k_, _re.sub(r"\d{5,}", "#", r_ or ""), n_) for (k_, r_, n_) in ops])
+            log.add("ops", _anon_ops(ops))
             # enumerate crash points
             points = []
             for k, (okind, rel, nbytes) in enumerate(ops):
@@ -863,7 +877,7 @@ def run_case_c15(case):
     counters["scenario:" + scen] += 1
     log.add("violations", [(v["oracle"], v["detail"]) for v in violations])
     sample = {"scenario": scen, "kind": kind, "layout_split": case["cfg"]["directory_split"],
-              "writer_ops": [(k_, _re.sub(r"\d{5,}", "#", r_ or ""), n_) for (k_, r_, n_) in ops] if "ops" in dir() else None,
+              "writer_ops": _anon_ops(ops) if "ops" in dir() else None,
               "crash_points": npoints, "pre_existing_entries": len(case["others"]) + (1 if scen.startswith("overwrite") else 0)}
     return {"violations": violations, "digest": log.digest(), "counters": dict(counters), "faults": dict(faults),
             "states": list(states), "sim_seconds": clk.now, "nontrivial": npoints > 3, "sample": sample}
